@@ -58,7 +58,7 @@ PROPS = {
     ),
     "C30": dict(
         verus=["names", "incr"],
-        standins=["fmt"],
+        standins=["fmt", "opnames"],
         level_text="the four dictionary-level name emission sites of the main writer and the incremental writer's write_name are proved to emit an ISO name token that decodes to the given bytes; content-stream operator names (/{name} Do through writeln!/format!) have NO deductive unit",
         not_decided="operator names in content streams (graphics ops, page.rs: formatted text outside both verifiers), resource dictionary assembly, form field names, that the library's own lexer decodes #XX to the same string for non-ASCII bytes",
     ),
